@@ -75,7 +75,9 @@ CLAIMS = {
     "C10": C("Proved: length clauses of _generate_agents (serial and pooled: a permutation keeps the length), _init_population, sort_and_trim, "
              "_extend / _replace_and_trim, _greedy_select_population, get_pool_results, the Population constructor and optimize()'s invariant "
              "(1 <= len <= population_size for every generation; = population_size for fixed-size classes, as an abstract predicate). "
-             "Bounded: that each of the 81 fixed-size optimizers keeps exactly population_size agents (sizes 1x..3x, all modes).",
+             "EFF LEN: 65 classes whose every update of the population is length-preserving by form (unfiltered comprehension over the "
+             "population, greedy / elitist kernel helper, in-place replacement, re-sort; committed list, a class dropping out is a violation). "
+             "Bounded: that each of the 81 fixed-size optimizers keeps exactly population_size agents (sizes 1x..3x, +1..+3, re-configuration, all modes).",
              NOTE_VC + NOTE_HOOKS, TECH_VC + "; " + TECH_EFF + "; " + TECH_BND),
     "C11": C("Proved for an arbitrary bijection standing for the completion order: get_pool_results returns every future's value exactly once; "
              "pooled _generate_agents / _greedy_select_population give a permutation of the serial outcome (none lost, none duplicated), so the "
